@@ -27,7 +27,7 @@ SPEC = {
              'callback invocation and every end of a check pass is judged against the in-order scan rule, every '
              'clock advance against "no feasible request is still waiting"; a case is one script; non-trivial = '
              'two or more waiters were served in one pass, or a waiter was made infeasible by an earlier callback '
-             'of the same pass'),
+             'of the same pass; also: a decimal leg with a three-valued fit (borderline requests judged for self-consistency only) and 1200-2500 requests served by one check'),
     'floors': {'quick': {'callbacks_judged': 3000, 'passes_with_2plus_callbacks': 300,
                          'waiters_made_infeasible_mid_pass': 100, 'clock_advances_checked': 5000},
                'thorough': {'callbacks_judged': 90000, 'passes_with_2plus_callbacks': 9000,
